@@ -237,7 +237,7 @@ impl Cast<Time> for bool {
 impl Cast<String> for Option<bool> {
     #[inline]
     fn cast(self) -> String {
-        format!("{:?}", self)
+        self.map(|v| v.to_string()).unwrap_or("None".to_string())
     }
 }
 
